@@ -340,6 +340,7 @@ class FxAnalyzer:
             self.ktype.setdefault(k, "size_t")
             self.ktype[("e", k)] = "size_t"
         self.truncated = False
+        self.wrap_sites = set()    # (line, parameter, k): statements x = P - k split into the cases P >= k and P < k
 
     # ---- expression values
     def trackable(self, ref):
@@ -896,6 +897,16 @@ class FxAnalyzer:
                 rl = self.rel_bound(lin_scale(start, -1), env)
                 if rl is not None and rl > 0 and not self.derived_in(exprs, env):
                     verdict = "violation"
+        wr = env.get(("#wrap",))
+        if wr is not None and verdict != "inside" and not self.derived_in(exprs, env):
+            # the case P < k of an unvalidated `P - k`: does every execution of this case overrun?
+            lo_over = self.lower(over, env)
+            if lo_over is not None and lo_over > 0:
+                verdict = "violation"
+                self.acc.setdefault(("#wrapped",) + key, []).append("violation")
+                self.detail[key] = ("param:" + nm, "documented [%s]; a length computed at line %d by an unsigned "
+                                    "subtraction that wraps when the parameter is smaller than the constant, which no "
+                                    "test on the path excludes" % (self.show_lin(ext), wr[0]), lo, lo_over)
         self.acc.setdefault(key, []).append(verdict)
         if verdict != "inside":
             self.detail.setdefault(key, ("param:" + nm, "documented [%s]" % self.show_lin(ext), lo, ub))
@@ -1177,6 +1188,71 @@ class FxAnalyzer:
                 return env.set(ref["id"], None)
             return env.set(ref["id"], ("p", cur[1], cur[2], iv_add(cur[3], (d * esz, d * esz))))
         return self.store(ref["id"], ref, {"k": "Int", "v": 1, "t": "int"}, env, "+=" if d == 1 else "-=")
+
+    def seen_in_test(self, c, env):
+        """remember which documented length parameters a branch condition on this path has mentioned"""
+        if self.ext_params and isinstance(c, dict):
+            for n in walk(c):
+                if n.get("k") == "Ref" and n.get("rk") == "param" and n.get("id") in self.ext_params:
+                    env = env.set(("#seen", n["id"]), (1, 1))
+        return env
+
+    def wrap_cases(self, e, target, env, line):
+        """[(environment before, fix-up after)] for the statement `x = P - k` (target: the declared variable, or None
+        for an assignment statement), where P is a length parameter whose extent the header documents, k a positive
+        constant, and nothing on the path so far has compared P with anything: P < k is then a case of its own, in
+        which the machine value of x is P + 2^64 - k.  Any other statement: one case, unchanged."""
+        one = [(env, lambda x: x)]
+        if not self.sym_ext or env.get(("#wrap",)) is not None or self.f.static or "err_t" not in str(self.f.ret):
+            return one          # the err_t functions of the API validate their lengths themselves: every value is admissible
+        x = e
+        while isinstance(x, dict) and x.get("k") == "Paren":
+            x = x["e"]
+        if target is None:
+            if not (isinstance(x, dict) and x.get("k") == "Bin" and x.get("op") == "="):
+                return one
+            target, x = strip(x["x"]), x["y"]
+            if not (isinstance(target, dict) and target.get("k") == "Ref" and self.trackable(target)):
+                return one
+        if target.get("p") or self.ty.canon(target.get("t") or "") not in ("size_t", "unsigned long"):
+            return one
+        while isinstance(x, dict) and (x.get("k") == "Paren" or (x.get("k") == "Cast" and not x.get("p") and
+                                       self.ty.urange(x.get("t") or "") == (1 << 64) - 1)):
+            x = x["e"]
+        if not (isinstance(x, dict) and x.get("k") == "Bin" and x.get("op") == "-"):
+            return one
+        a, b = x["x"], x["y"]
+        while isinstance(a, dict) and a.get("k") == "Paren":
+            a = a["e"]
+        kc = int_val(b)
+        if not (isinstance(a, dict) and a.get("k") == "Ref" and a.get("rk") == "param" and kc is not None and 0 < kc < (1 << 31)):
+            return one
+        P = a.get("id")
+        if P not in self.ext_params or P in self.untracked or P == target.get("id"):
+            return one
+        if self.ty.canon(a.get("t") or "") not in ("size_t", "unsigned long"):
+            return one
+        # fresh: no test on the path mentioned P, no interval was learnt for it, every fact about it is its entry equality
+        if env.get(("#seen", P)) is not None or env.get(P) not in (None, TOP, (0, None)):
+            return one
+        ghost = 0
+        for terms, c in env.facts:
+            if P in dict(terms):
+                if set(dict(terms)) == {P, ("e", P)} and c == 0:
+                    ghost += 1
+                else:
+                    return one
+        if ghost != 2:
+            return one
+        W = (1 << 64) - kc
+        tid = target["id"]
+
+        def wrapped(env2):
+            env2 = env2.kill(tid).set(tid, (W, W + kc - 1)).set(("d", tid), None)
+            env2 = env2.add_fact({tid: 1, P: -1}, W).add_fact({tid: -1, P: 1}, -W)
+            return env2.set(("#wrap",), (line, line))
+        self.wrap_sites.add((line, a.get("n"), kc))
+        return [(env.set(P, (kc, None)), lambda x: x), (env.set(P, (0, kc - 1)), wrapped)]
 
     def eval_split(self, e, env):
         """environments after an expression statement; `x = c ? a : b` is evaluated once per arm under the arm's
@@ -1657,29 +1733,34 @@ class FxAnalyzer:
             if kind in ("entry", "nop"):
                 outs = [(s, env) for _, s in node.succ]
             elif kind == "eval":
-                self.check_expr(node.e, env, node.line)
                 outs = []
-                for env2 in self.eval_split(node.e, env):
-                    outs.extend((s, env2) for _, s in node.succ)
+                for env1, fin in self.wrap_cases(node.e, None, env, node.line):
+                    self.check_expr(node.e, env1, node.line)
+                    for env2 in self.eval_split(node.e, env1):
+                        outs.extend((s, fin(env2)) for _, s in node.succ)
             elif kind == "decl":
                 d = node.e
-                env2 = env
+                outs = []
                 if d.get("init") is not None:
-                    self.check_expr(d["init"], env, node.line)
-                    env2 = self.effects(d["init"], env)
                     ref = {"k": "Ref", "id": d["id"], "n": d["n"], "t": d.get("t"), "p": d.get("p"), "rk": "local"}
-                    if d["init"].get("k") != "InitList":
-                        env2 = self.assign(ref, d["init"], env2)
+                    for env1, fin in self.wrap_cases(d["init"], ref, env, node.line):
+                        self.check_expr(d["init"], env1, node.line)
+                        env2 = self.effects(d["init"], env1)
+                        if d["init"].get("k") != "InitList":
+                            env2 = self.assign(ref, d["init"], env2)
+                        outs.extend((s, fin(env2)) for _, s in node.succ)
                 else:
                     env2 = env.set(d["id"], None)
-                outs = [(s, env2) for _, s in node.succ]
+                    outs = [(s, env2) for _, s in node.succ]
             elif kind == "cond":
+                env = self.seen_in_test(node.e, env)
                 self.check_expr(node.e, env, node.line)
                 for lab, s in node.succ:
                     e2 = self.assume(node.e, bool(lab), env)
                     if e2 is not None:
                         outs.append((s, e2))
             elif kind == "switch":
+                env = self.seen_in_test(node.e, env)
                 self.check_expr(node.e, env, node.line)
                 env1 = self.effects(node.e, env)
                 v = self.ival(node.e, env)
